@@ -346,6 +346,30 @@ func c06Tree(r gen.R, shape string, o ISOOpts) Tree {
 		for i := 0; i < 5; i++ {
 			t = append(t, TNode{Path: fmt.Sprintf("samebase%d.txt", i), Size: 100, Seed: uint64(100 + i)})
 		}
+		// groups that collide after truncation next to siblings that already own, by their natural names, the
+		// short names a resolver would hand out (base cut to 7, 6, 5 characters + 1, 2, 3 digits, with and
+		// without the extension): whatever numbering scheme is used, a generated name must not equal a sibling's
+		for g, base := range []string{"filename", "abcdefgh", "zyxwvuts"} {
+			d := fmt.Sprintf("grp%d", g)
+			t = append(t, TNode{Path: d, Dir: true})
+			k := 8 + r.Intn(7)
+			for i := 0; i < k; i++ {
+				t = append(t, TNode{Path: fmt.Sprintf("%s/%s_colliding_%c.dat", d, base, 'a'+rune(i)), Size: 20 + i, Seed: uint64(1000*g + i + 1)})
+			}
+			seed := uint64(1000*g + 500)
+			nat := func(name string) {
+				seed++
+				t = append(t, TNode{Path: d + "/" + name, Size: 30, Seed: seed})
+			}
+			for _, dg := range r.Perm(10)[:1+r.Intn(3)] {
+				nat(fmt.Sprintf("%s%d.dat", base[:7], dg))
+			}
+			for _, dg := range r.Perm(16)[:5] {
+				nat(fmt.Sprintf("%s%02d.dat", base[:6], dg))
+			}
+			nat(fmt.Sprintf("%s%03d.dat", base[:5], r.Intn(12)))
+			nat(fmt.Sprintf("%s~%d.dat", base[:6], 1+r.Intn(3)))
+		}
 		return t
 	case "deep":
 		var t Tree
